@@ -286,6 +286,8 @@ def body():
                 f_gen = [ex.submit(V.export_cases, "Oracle.tla", c, sc, "CASE", 3, 1500, NOTE)
                          for c in ("OracleGen%s.cfg" % sfx, "OracleGenFixed%s.cfg" % sfx)]
             mc_code, mc_fixed = f_code.result(), f_fixed.result()
+            # a design TLC must refute: GetLatestInfoUntilBlock as two separate reads with the syncer committing in between
+            two_reads = V.model_counterexample("Oracle.tla", "OracleTwoReads.cfg", "SafeInject", sc, timeout=900)
             live = [f.result() for f in f_live]
             gens = [f.result() for f in f_gen]
         # behaviours
@@ -411,6 +413,9 @@ def body():
                  "seeded random long schedules (lagging / ahead / mixed syncer, failures of every dependency, reorgs above the finalized "
                  "block, foreign injections, sparse block storage, store commits that fail and are retried); evaluations = real processLatestGER calls judged; non-trivial = "
                  "ticks in which the real oracle injected a root",
+            refuted_designs=[dict(two_reads, note="the store read in two steps (last processed block, then the newest leaf without a block "
+                                  "filter): the syncer's commit in between leaks a root above the sampled block; the real code is driven "
+                                  "into that interleaving by the tick parameter mid (harness/sqlfault)")],
             model=dict(spec="Oracle.tla", exhaustive=True,
                        invariants=["TypeOK", "SafeInject", "TargetFinal", "CellDead"],
                        runs=[dict(cfg=m["cfg"], states=m["distinct"], transitions=m["generated"], depth=m["depth"], wall_s=m["wall_s"])
